@@ -17,7 +17,7 @@ for d in ${SEEDS:-seeded/*/}; do
   log=$(tools/with-seed.sh $d ./check $chk quick 2>&1)
   rc=$?
   t1=$(date +%s)
-  first=$(echo "$log" | grep -m1 "failure sig" | cut -c1-160 | tr '\t' ' ')
+  first=$(echo "$log" | grep -a -m1 "failure sig" | cut -c1-160 | tr -c '[:print:]' ' ')
   if echo "$log" | grep -q "^VIOLATION property=$chk"; then det=yes; else det=no; fi
   [ "$chk" != "$prop" ] && [ $det = yes ] && det="yes(by $chk)"
   echo -e "$s\t$prop\t$det\t$((t1-t0))\t$first" >> $out
